@@ -35,6 +35,8 @@ type Config struct {
 	Tier      int  // 0 quick, 1 thorough (returned by vxTier())
 	Preempt   int  // pre-emption budget (mode X); 0 = run-to-block
 	PermuteMaps bool
+	Trace bool // record event traces and run the SMT race analysis at the end of every path
+	MaxTraceAccesses int
 	SymbolicChoices bool // harness/scheduler choices are symbolic variables enumerated by the solver
 	SelectFork  bool // fork over the ready cases of a select (otherwise: first ready case in source order)
 	Known     map[string]bool // known-finding ids that may be excused
@@ -47,6 +49,7 @@ type Config struct {
 	mu    sync.Mutex
 	funcs map[string]int
 	exts  map[string]int
+	traceFn map[*ssa.Function]bool
 }
 
 func (c *Config) noteExt(name string) {
@@ -89,6 +92,7 @@ func (c *Config) noteFunc(fn *ssa.Function) {
 func (c *Config) Prepare() {
 	c.funcs = map[string]int{}
 	c.exts = map[string]int{}
+	c.traceFn = map[*ssa.Function]bool{}
 	if c.MaxSteps == 0 {
 		c.MaxSteps = 20_000_000
 	}
@@ -100,6 +104,9 @@ func (c *Config) Prepare() {
 	}
 	if c.MaxGoroutines == 0 {
 		c.MaxGoroutines = 512
+	}
+	if c.MaxTraceAccesses == 0 {
+		c.MaxTraceAccesses = 2000000
 	}
 	if c.QueryMS == 0 {
 		c.QueryMS = 20000
@@ -179,6 +186,8 @@ type pathState struct {
 	obs         []observation
 	preempts    int
 	reached     map[string]bool
+	racePairs   int
+	raceQueries int
 }
 
 type unsupportedPanic struct{ msg string }
@@ -224,6 +233,9 @@ type PathResult struct {
 	Notes    []string
 	Asserts  map[string]int
 	Steps    int64
+	RacePairs   int
+	RaceQueries int
+	TraceEvents int
 }
 
 type ObsRecord struct {
@@ -249,6 +261,9 @@ type Stats struct {
 	Truncated    bool
 	Steps        int64
 	MaxDecisions int
+	RacePairs    int64
+	RaceQueries  int64
+	TraceEvents  int64
 }
 
 type Explorer struct {
@@ -377,6 +392,9 @@ func (e *Explorer) worker(w int) {
 func (e *Explorer) record(r *PathResult) {
 	st := &e.stats
 	st.Steps += r.Steps
+	st.RacePairs += int64(r.RacePairs)
+	st.RaceQueries += int64(r.RaceQueries)
+	st.TraceEvents += int64(r.TraceEvents)
 	if len(r.Dec) > st.MaxDecisions {
 		st.MaxDecisions = len(r.Dec)
 	}
@@ -431,6 +449,9 @@ func (e *Explorer) runPath(sol *smt.Solver, spec *PathSpec) (*PathResult, []*Pat
 		derived:  map[*value][][]value{},
 		initDone: map[*ssa.Package]bool{},
 	}
+	if cfg.Trace {
+		i.tr = newTrace()
+	}
 	i.ps = &pathState{spec: spec, assertsHit: map[string]int{}, known: map[string]bool{}, reached: map[string]bool{}}
 	if rt := cfg.Prog.ImportedPackage("runtime"); rt != nil {
 		i.runtimeErrorString = rt.Type("errorString").Object().Type()
@@ -467,6 +488,7 @@ func (e *Explorer) runPath(sol *smt.Solver, spec *PathSpec) (*PathResult, []*Pat
 			i.yielded <- struct{}{}
 		}()
 		fr := &frame{i: i, g: root, fn: e.entry}
+		i.traceSync(fr, evStart, nil, 0, 0)
 		if initFn != nil {
 			call(i, fr, token.NoPos, initFn, nil)
 		}
@@ -475,6 +497,14 @@ func (e *Explorer) runPath(sol *smt.Solver, spec *PathSpec) (*PathResult, []*Pat
 	i.schedLoop()
 
 	ps := i.ps
+	if cfg.Trace && ps.out.kind == oOK {
+		rep, pairs, q := i.analyseRaces()
+		ps.racePairs, ps.raceQueries = pairs, q
+		ps.transitions += q
+		if rep != nil {
+			ps.out = outcome{kind: oViolation, label: "no-data-race", msg: "predicted data race: " + rep.String(cfg.Prog.Fset)}
+		}
+	}
 	if len(sol.Errors) > 0 {
 		ps.notes = append(ps.notes, "solver error: "+strings.Join(sol.Errors, "; "))
 		sol.Errors = nil
@@ -492,6 +522,10 @@ func (e *Explorer) runPath(sol *smt.Solver, spec *PathSpec) (*PathResult, []*Pat
 		Notes:   ps.notes,
 		Asserts: ps.assertsHit,
 		Steps:   i.steps,
+		RacePairs: ps.racePairs, RaceQueries: ps.raceQueries,
+	}
+	if i.tr != nil {
+		res.TraceEvents = len(i.tr.events)
 	}
 	for k := range ps.known {
 		res.Known = append(res.Known, k)
